@@ -21,7 +21,10 @@ operand_pairs = G.operand_pairs
 
 def core_other():
     return [('EX', P0), ('AX', P0), ('AF', P0), ('EG', P0), ('AU', P0, P1), ('EW', P0, P1), ('bind', 'x', None, ('EX', X)), ('exists', 'x', None, ('jump', 'x', ('AF', ('and', X, P0)))),
-            ('AG', ('EX', ('EF', P0))), ('forall', 'x', None, ('AU', ('not', X), ('EG', P1)))]
+            ('AG', ('EX', ('EF', P0))), ('forall', 'x', None, ('AU', ('not', X), ('EG', P1))),
+            # near-misses of the fixed-point pattern (binder unused, AX of an outer variable; other quantifiers; nested)
+            ('exists', 'x', None, ('bind', 'xx', None, ('AX', X))), ('forall', 'x', None, ('bind', 'xx', None, ('AX', X))), ('exists', 'x', None, ('AX', X)),
+            ('bind', 'x', None, ('EX', ('AX', X))), ('bind', 'x', None, ('AX', X)), ('EF', ('bind', 'x', None, ('AX', X)))]
 
 def rename_vars(phi, m):
     op = phi[0]
@@ -97,3 +100,33 @@ def run(chk):
                         # the standard result is checked against the semantics in C01; here the unsafe result is the suspect
                         UC.confirm(chk, 'C18', sess, f, a, v.model, name, 'unsafe-ex')
                     else: chk.obligation(name, 'E-UNI', 'timeout', v.seconds)
+    two_networks(chk)
+
+def two_networks(chk):
+    """two fully specified networks over the same variable names model-checked one after the other in ONE process: the second
+    one must not see anything of the first (a cache keyed by names would); standard vs self-loop-free vs explicit semantics"""
+    from .. import replay as RP, front
+    n = 2; names = ['v0', 'v1']
+    # T[(i, s)] = variable i can flip in state s.   N1: v0 := v1, v1 := v0 (steady states 00, 11);  N2: v0 := !v1, v1 := v0 (a 4-cycle)
+    def table(f): return {(i, s_): (f(i, s_) != ((s_ >> i) & 1)) for i in range(n) for s_ in range(1 << n)}
+    N1 = table(lambda i, s_: (s_ >> (1 - i)) & 1)
+    N2 = table(lambda i, s_: (1 - ((s_ >> 1) & 1)) if i == 0 else (s_ & 1))
+    fs = [('bind', 'x', None, ('AX', X)), ('EX', P0), ('AF', P1), ('bind', 'x', None, ('AG', ('EF', X))), ('EF', ('and', P0, P1))]
+    for first, second, tag in ((N1, N2, 'steady states first'), (N2, N1, 'cycle first')):
+        jobs = [{'op': 'mc', 'aeon': RP.concrete_aeon(n, T, names), 'k': 1, 'context': {}, 'runs': [{'entry': e, 'formulas': [S.show(f)]} for f in fs for e in ('formula_dirty', 'unsafe_ex')]} for T in (first, second)]
+        ans = front.native(jobs); chk.native_replays += 1
+        dec = uni.Decoded(ans[1])
+        for i_, f in enumerate(fs):
+            spec = sorted(RP.concrete_spec(n, second, {}, f, names, True))
+            std = ans[1]['runs'][2 * i_]; uns = ans[1]['runs'][2 * i_ + 1]
+            got_std = sorted(RP.states_of(dec, std['ok'])) if 'ok' in std else str(std)
+            nm = f'C18/native two networks over the same names in one process ({tag}): second network, {S.show(f)}: standard evaluation == explicit semantics'
+            if got_std == spec: chk.obligation(nm, 'native', 'holds', 0.0, False)
+            else:
+                chk.obligation(nm, 'native', 'violated'); chk.violation(nm, 'history', {'first_network': jobs[0]['aeon'], 'second_network': jobs[1]['aeon'], 'formula': S.show(f), 'got': got_std, 'semantics': spec}, f'after another network over the same variable names was model-checked in the same process, {S.show(f)} evaluates to {got_std}, semantics {spec}')
+            if in_fragment(f) or second is N2:        # N2 has no steady state: the variants must agree on every formula
+                got_uns = sorted(RP.states_of(dec, uns['ok'])) if 'ok' in uns else str(uns)
+                nm2 = f'C18/native two networks in one process ({tag}): second network, {S.show(f)}: self-loop-free variant == standard'
+                if got_uns == got_std: chk.obligation(nm2, 'native', 'holds', 0.0, False)
+                else:
+                    chk.obligation(nm2, 'native', 'violated'); chk.violation(nm2, 'history-unsafe', {'first_network': jobs[0]['aeon'], 'second_network': jobs[1]['aeon'], 'formula': S.show(f), 'standard': got_std, 'unsafe_ex': got_uns}, f'{S.show(f)}: standard {got_std}, self-loop-free {got_uns}')
